@@ -698,12 +698,15 @@ def run(prop, tier, seed, timeout_s, args, t_start):
     # real violation, replayed on the real code; finding none leaves the obligation undecided)
     ugroups = {}
     for rec in report["obligations"]:
-        if rec["result"] == "unknown" and rec["kind"] in TOP_KINDS:
+        if (rec["result"] == "unknown" and rec["kind"] in TOP_KINDS) or rec["result"] == "proof-broken":
             ugroups.setdefault((rec["contract"], strip_lines(rec["name"])), []).append(rec)
     sjobs = []
     for (cname, gname), recs in ugroups.items():
         c = next(x for x in reg.all if x.name == cname)
-        if c.replay is None or not (gname.startswith("post#") or gname.startswith("xpost:unexpected")):
+        if c.replay is None:
+            continue
+        if recs[0]["result"] != "proof-broken" and not (gname.startswith("post#") or gname.startswith("xpost:")
+                                                         or gname.startswith("pre@")):
             continue
         sjobs.append((c, recs))
     if sjobs:
